@@ -41,7 +41,11 @@ ModelOf(id, r) ==
                     [k |-> "parameters", comp |-> "", entries |-> <<[name |-> p, e |-> N("2")]>>],
                     [k |-> "expressions", comp |-> "", entries |->
                         <<[name |-> w, e |-> LET A == Bn("add", Bn("mul", Var(p), Var(s)), Var("y")) IN Bn("mul", A, A)],   \* a repeated sub-expression
-                          [name |-> DName(s), e |-> Bn("sub", Var(w), Var(s))],
+                          \* two statements that do not mention the identifier, the second with a repeated sub-expression,
+                          \* between its definition and its later uses
+                          [name |-> "u", e |-> Bn("add", Var(w), N("1"))],
+                          [name |-> "v", e |-> LET UY == Bn("add", Var("u"), Var("y")) IN Bn("div", UY, Bn("add", N("1"), Bn("mul", UY, UY)))],
+                          [name |-> DName(s), e |-> Bn("add", Bn("sub", Var(w), Var(s)), Var("v"))],
                           [name |-> "dy_dt", e |-> Bn("mul", Var(s), Var(p))]>>] >>]
 NameOrderDef == <<"E">>   \* not used for sorting here: the layout is compared by name only
 
@@ -75,8 +79,11 @@ Run(m_id, r, scheme) ==
       V(env, n) == LET v == Get(env, n) IN IF v = TPL THEN Poison ELSE v
       av == Arith("add", Arith("mul", V(e3, p), V(e3, s)), V(e3, "y"))
       wv == Arith("mul", av, av)
-      e4 == Bind(e3, w, wv)
-      ds == Arith("sub", V(e4, w), V(e4, s))
+      e4a == Bind(e3, w, wv)
+      e4b == Bind(e4a, "u", Arith("add", V(e4a, w), Q(1,1)))
+      bv == Arith("add", V(e4b, "u"), V(e4b, "y"))
+      e4 == Bind(e4b, "v", Arith("div", bv, Arith("add", Q(1,1), Arith("mul", bv, bv))))
+      ds == Arith("add", Arith("sub", V(e4, w), V(e4, s)), V(e4, "v"))
       e5 == Bind(e4, DName(s), ds)
       dy == Arith("mul", V(e5, s), V(e5, p))
       e6 == Bind(e5, "dy_dt", dy)
